@@ -242,6 +242,7 @@ SCEN = {
         'rA': [{'do': R, 'after': _after('disc_new', g=1)}, {'do': SH, 'after': _after('disc_new', g=2)}]}},
     'systemd_broken': {'ifaces': ['tcp'], 'kinds': [['ok']], 'mode': 'systemd_broken', 'threads': {
         'rA': [{'do': SH, 'after': _after('disc_new', g=1)}]}},
+    'start_raises': {'ifaces': ['tcp'], 'kinds': [['ok']], 'mode': 'startexc', 'threads': {}},
     'badcfg_first': {'ifaces': ['tcp'], 'kinds': [['ok']], 'mode': 'badcfg1', 'threads': {}},
     'badcfg_second': {'ifaces': ['tcp'], 'kinds': [['ok']], 'mode': 'badcfg2', 'threads': {
         'rA': [{'do': R, 'after': _after('disc_new', g=1)}]}},
@@ -386,7 +387,13 @@ def run(chk):
         must = MUST_FAIL + ([] if quick else MUST_FAIL_THOROUGH)
         for cfg, _ in must:
             thunks.append(lambda cfg=cfg: run_tlc('ServerRun', cfg, timeout=1500, workers=1, env=JVM, heap='1g'))
-        gens = [('fixed', f'Gen_ServerRun_{tier}_fixed.cfg'), ('asimpl', f'Gen_ServerRun_{tier}_asimpl.cfg')]
+        # design -> the emissions whose scripts it has to reproduce (asimpl_noif: pinned + only the first repair)
+        if quick:
+            gens = [(('fixed',), 'Gen_ServerRun_quick_fixed.cfg'), (('asimpl', 'asimpl_noif'), 'Gen_ServerRun_quick_asimpl.cfg'),
+                    (('asimpl',), 'Gen_ServerRun_quick_asimpl_fail.cfg'), (('asimpl_noif',), 'Gen_ServerRun_quick_asimpl_noif.cfg')]
+        else:
+            gens = [(('fixed',), 'Gen_ServerRun_thorough_fixed.cfg'), (('asimpl',), 'Gen_ServerRun_thorough_asimpl.cfg'),
+                    (('asimpl_noif',), 'Gen_ServerRun_thorough_asimpl_noif.cfg')]
         for _, cfg in gens:
             thunks.append(lambda cfg=cfg: emit_behaviours('Gen_ServerRun', cfg, maximal_only=False, timeout=1500,
                                                           env=JVM, heap='2g'))
@@ -432,30 +439,28 @@ def run(chk):
                 raise MachineryError(f'{cfg}: the as-implemented design is expected to violate {prop}: '
                                      f'{r.violated or r.error}')
             chk.add_tlc(r)
-        behs = {}
-        for (design, _), (r, b) in zip(gens, out[-2:]):
-            chk.add_tlc(r)
-            behs[design] = b
         stage['tlc'] = round(_t.time() - t0, 1)
 
-        # ---- 3 spec -> code: the scripts of both designs on the real server
+        # ---- 3 spec -> code: the scripts of the designs on the real server
         nif = 2
         jobs = []
-        for design in ('fixed', 'asimpl'):
+        for (designs, cfg), (r, bs) in zip(gens, out[-len(gens):]):
+            chk.add_tlc(r)
             uniq = {}
-            for b in behs[design]:
+            for b in bs:
                 uniq.setdefault(json.dumps(script_of(b), sort_keys=True), []).append(b)
             keys = sorted(uniq)
-            step = (6 if design == 'fixed' else 24) if quick else 1
-            chk.notes[f'scripts_{design}'] = f'{len(keys)} (1 of {step} replayed)'
+            step = (6 if designs == ('fixed',) else 5 if len(keys) > 400 else 2) if quick else 1
+            chk.notes['scripts_' + cfg[14:-4]] = f'{len(keys)} (1 of {step} replayed)'
             for k in keys[chk.seed % step::step]:
-                jobs.append((k, nif, design, uniq[k]))
+                jobs.append((k, nif, designs, uniq[k]))
         res = pool.map(_replay, jobs, max(1, len(jobs) // (procs * 4))) if pool is not None else [_replay(j) for j in jobs]
-        count = {'fixed': [0, 0], 'asimpl': [0, 0]}
-        for (k, _, design, _), r in zip(jobs, res):
-            count[design][0 if r['match'] else 1] += 1
+        count = {'fixed': [0, 0], 'asimpl': [0, 0], 'asimpl_noif': [0, 0]}
+        for (k, _, designs, _), r in zip(jobs, res):
+            for design in designs:
+                count[design][0 if r['match'] else 1] += 1
             traces.append(r['trace'])
-            origin.append({'world': 'script', 'design': design, 'script': json.loads(k), 'case': r['case'],
+            origin.append({'world': 'script', 'design': list(designs), 'script': json.loads(k), 'case': r['case'],
                            'match': r['match'], 'diff': r.get('diff'), 'thread_exc': r['thread_exc'], 'stuck': r['stuck']})
         chk.notes['replay_match_mismatch'] = count
         if jobs:
@@ -483,7 +488,7 @@ def run(chk):
         chk.impl_traces += 1
         nontrivial = any(e['ev'] in ('req_b', 'bindfail', 'sig_b', 'crash') for e in traces[i])
         if o['world'] == 'script':
-            chk.case(('script', o['design'], json.dumps(o['script'], sort_keys=True)), nontrivial)
+            chk.case(('script', o['design'][0], json.dumps(o['script'], sort_keys=True)), nontrivial)
         else:
             chk.case(('scenario', o['scenario'], o['line'], tuple(o['choices'])), nontrivial)
         bad_exc = {k: x for k, x in o['thread_exc'].items() if x not in ALLOWED_THREAD_EXC}
@@ -502,15 +507,27 @@ def run(chk):
     # spec -> code verdict: the code is bound to the code-shaped model - every script of one of the two designs has to
     # be reproduced event by event and state by state (pinned tree: the as-implemented design; repaired tree: the
     # repaired design); what an as-implemented execution means is decided by the deviations above
-    mism = {dsg: [origin[i] for i in range(len(traces)) if origin[i]['world'] == 'script'
-                  and origin[i]['design'] == dsg and not origin[i]['match']] for dsg in ('fixed', 'asimpl')}
-    if mism['fixed'] and mism['asimpl']:
-        ref = 'asimpl' if len(mism['asimpl']) <= len(mism['fixed']) else 'fixed'
-        for o in mism[ref][:40]:
-            chk.violation({'module': 'ServerRun', 'replay': 'differs from both designs',
+    mism = {dsg: [i for i in range(len(traces)) if origin[i]['world'] == 'script'
+                  and dsg in origin[i]['design'] and not origin[i]['match']] for dsg in ('fixed', 'asimpl', 'asimpl_noif')}
+    follows = [dsg for dsg in ('asimpl', 'asimpl_noif', 'fixed') if not mism[dsg]]
+    if not follows:
+        ref = min(mism, key=lambda dsg: len(mism[dsg]) / max(1, sum(count[dsg])))
+        for i in mism[ref][:40]:
+            o = origin[i]
+            chk.violation({'module': 'ServerRun', 'replay': 'differs from every design',
                            'act': (o['diff'] or {}).get('act'), 'what': (o['diff'] or {}).get('state', 'event')},
-                          dict(o, reference_design=ref))
-    chk.notes['code_follows_design'] = 'asimpl' if not mism['asimpl'] else 'fixed' if not mism['fixed'] else 'neither'
+                          dict(o, reference_design=ref, trace=traces[i]))
+    chk.notes['code_follows_design'] = follows[0] if follows else 'none'
+    if os.environ.get('X06_HARVEST'):         # (maintenance) the shortest explored schedule showing each deviation
+        best = {}
+        for i in range(len(traces)):
+            o = origin[i]
+            if o['world'] == 'scenario' and verdicts[i] is None:
+                for dev in devs.get(i, ()):
+                    if dev not in best or len(o['choices']) < len(best[dev]['choices']):
+                        best[dev] = {'scenario': o['scenario'], 'choices': o['choices'], 'line': o['line'], 'shows': dev}
+        with open(os.environ['X06_HARVEST'], 'w') as f:
+            json.dump([best[k] for k in sorted(best)], f)
     chk.notes['deviations_needed'] = dcount
     chk.notes['explored_schedules'] = len(seen)
     chk.notes['corpus_schedules'] = len(corpus)
